@@ -380,6 +380,19 @@ def judge_case(spec, rec):
     if st_ == 'err':
         raise Violation('config-rejected/' + type(grader).__name__,
                         'a documented configuration was refused: %s' % str(grader)[:300])
+    if len(canonical(spec['inputs'])) % 3 == 0 and not g.get('grouping'):
+        # object sharing: the subgrader OBJECT(S) of the grader under test also serve a second ListGrader with the
+        # opposite partial-credit setting (and the opposite ordering where a single subgrader allows it), which grades
+        # the same submission and its reverse first
+        subs = grader.config['subgraders']
+        kw = dict(subgraders=subs, partial_credit=not g['pc'],
+                  ordered=g['ordered'] if isinstance(subs, list) else not g['ordered'], answers=to_answer(spec['answers']))
+        st2, rival = call(ListGrader, **kw)
+        if st2 == 'ok':
+            call(rival, None, list(spec['inputs']))
+            call(rival, None, list(reversed(spec['inputs'])))
+            rec.calls(2)
+            rec.cls('subgrader-objects-shared-with-a-rival-list')
     return judge_built(spec, grader, make_ref(g), rec)
 
 
